@@ -365,12 +365,14 @@ impl<'a> Querier for SimQuerier<'a> {
                     .staking
                     .validators
                     .iter()
+                    .filter(|a| !self.w.staking.jailed.contains(*a))
                     .map(|a| json!({"address": a, "commission": "0.1", "max_commission": "0.2", "max_change_rate": "0.01"}))
                     .collect();
                 ok_bin(&json!({ "validators": v }))
             }
             QueryRequest::Staking(StakingQuery::Validator { address }) => {
-                if self.w.staking.validators.contains(&address) {
+                // cosmwasm-std: "Returns None if the validator is not part of the currently active validator set."
+                if self.w.staking.validators.contains(&address) && !self.w.staking.jailed.contains(&address) {
                     ok_bin(&json!({"validator": {"address": address, "commission": "0.1", "max_commission": "0.2", "max_change_rate": "0.01"}}))
                 } else {
                     ok_bin(&json!({ "validator": null }))
@@ -635,6 +637,45 @@ fn call_execute(kind: Kind, deps: DepsMut, env: Env, info: MessageInfo, msg: &[u
     }
 }
 
+/// `reply` entry points are optional: none of the shipped contracts exports one, a changed
+/// contract may. Inside each function below a glob import of the contract's module takes
+/// precedence over the module-level fallback of the same name, so the contract's own `reply`
+/// is called when it exists and the fallback (what wasmd does for a missing export) otherwise.
+mod reply_shim {
+    use cosmwasm_std::{DepsMut, Env, Reply, Response, StdError, StdResult};
+    #[allow(dead_code)]
+    pub fn reply(_d: DepsMut, _e: Env, _m: Reply) -> StdResult<Response> {
+        Err(StdError::generic_err("contract exports no reply entry point"))
+    }
+    macro_rules! shim {
+        ($name:ident, $($path:tt)+) => {
+            pub fn $name(d: DepsMut, e: Env, m: Reply) -> Result<Response, String> {
+                #[allow(unused_imports)]
+                use $($path)+::*;
+                reply(d, e, m).map_err(|e| e.to_string())
+            }
+        };
+    }
+    shim!(hub, basset_sei_hub::contract);
+    shim!(reward, basset_sei_reward::contract);
+    shim!(dispatcher, basset_sei_rewards_dispatcher::contract);
+    shim!(registry, basset_sei_validators_registry::contract);
+    shim!(bsei, basset_sei_token_bsei::contract);
+    shim!(stsei, basset_sei_token_stsei::contract);
+}
+
+fn call_reply(kind: Kind, deps: DepsMut, env: Env, msg: cosmwasm_std::Reply) -> HandlerResult {
+    match kind {
+        Kind::Hub => reply_shim::hub(deps, env, msg),
+        Kind::Reward => reply_shim::reward(deps, env, msg),
+        Kind::Dispatcher => reply_shim::dispatcher(deps, env, msg),
+        Kind::Registry => reply_shim::registry(deps, env, msg),
+        Kind::BSei => reply_shim::bsei(deps, env, msg),
+        Kind::StSei => reply_shim::stsei(deps, env, msg),
+        _ => Err("stub contract has no reply entry point".into()),
+    }
+}
+
 pub fn call_instantiate(kind: Kind, deps: DepsMut, env: Env, info: MessageInfo, msg: &[u8]) -> HandlerResult {
     match kind {
         Kind::Hub => {
@@ -776,11 +817,76 @@ impl Engine {
                 self.calls[idx].attrs.push(("sim:delegated".into(), d.to_string()));
             }
         }
-        for sub in resp.messages {
-            if sub.reply_on != ReplyOn::Never {
-                return Err(self.fail(idx, ErrKind::Harness, "submessage with a reply mode is not modelled".into()));
+        self.run_submessages(contract, kind, idx, depth, resp.messages, 0)
+    }
+
+    /// Dispatch the messages of a Response in order, with CosmWasm's submessage semantics: a
+    /// failing submessage whose caller asked for a reply on error is rolled back on its own
+    /// (state as before that submessage) and reported to the caller's `reply` entry point; the
+    /// transaction continues iff that returns Ok. Injected out-of-gas aborts and harness errors
+    /// are never catchable.
+    fn run_submessages(&mut self, contract: &str, kind: Kind, idx: usize, depth: u32, messages: Vec<cosmwasm_std::SubMsg>, nesting: u32) -> Result<(), TxErr> {
+        if nesting > 8 {
+            return Err(self.fail(idx, ErrKind::Harness, "reply chain deeper than 8".into()));
+        }
+        for sub in messages {
+            if sub.reply_on == ReplyOn::Never {
+                self.dispatch(contract, sub.msg, depth + 1, Some(idx))?;
+                continue;
             }
-            self.dispatch(contract, sub.msg, depth + 1, Some(idx))?;
+            let snapshot = self.w.clone();
+            let first = self.calls.len();
+            let r = self.dispatch(contract, sub.msg, depth + 1, Some(idx));
+            let result = match r {
+                Ok(()) => {
+                    if sub.reply_on == ReplyOn::Error {
+                        continue;
+                    }
+                    cosmwasm_std::SubMsgResult::Ok(cosmwasm_std::SubMsgResponse { events: vec![], data: None })
+                }
+                Err(te) => {
+                    if matches!(te.kind, ErrKind::Aborted | ErrKind::Harness) || sub.reply_on == ReplyOn::Success {
+                        return Err(te);
+                    }
+                    // roll the submessage back: the world, and the record of what it did
+                    self.w = snapshot;
+                    for c in self.calls.iter_mut().skip(first) {
+                        if c.ok {
+                            c.ok = false;
+                            c.attrs.push(("sim:reverted".into(), "submessage failed and was caught by reply".into()));
+                        }
+                    }
+                    cosmwasm_std::SubMsgResult::Err(te.msg)
+                }
+            };
+            let ok = matches!(result, cosmwasm_std::SubMsgResult::Ok(_));
+            let ridx = self.push(depth + 1, Some(idx), contract, MsgRec::Other(format!("reply:{}:id={}:{}", contract, sub.id, if ok { "ok" } else { "err" })))?;
+            let env = env_for(&self.w, contract);
+            let mut store: Store = self.w.contracts[contract].storage.clone();
+            let a = api();
+            let res = {
+                let querier = SimQuerier { w: &self.w };
+                let was = IN_CONTRACT.with(|c| c.replace(true));
+                let r = catch_unwind(AssertUnwindSafe(|| {
+                    let mut ms = MemStore(&mut store);
+                    let deps = DepsMut { storage: &mut ms, api: &a, querier: QuerierWrapper::new(&querier) };
+                    call_reply(kind, deps, env, cosmwasm_std::Reply { id: sub.id, result })
+                }));
+                IN_CONTRACT.with(|c| c.set(was));
+                r
+            };
+            let resp = match res {
+                Ok(Ok(r)) => r,
+                Ok(Err(e)) => return Err(self.fail(ridx, ErrKind::Contract, e)),
+                Err(p) => {
+                    let m = panic_msg(&p);
+                    return Err(self.fail(ridx, ErrKind::Panic, format!("wasm trap: {}", m)));
+                }
+            };
+            self.w.contracts.get_mut(contract).unwrap().storage = store;
+            self.calls[ridx].ok = true;
+            self.calls[ridx].attrs = resp.attributes.iter().map(|a| (a.key.clone(), a.value.clone())).collect();
+            self.run_submessages(contract, kind, ridx, depth + 1, resp.messages, nesting + 1)?;
         }
         Ok(())
     }
